@@ -55,7 +55,7 @@ over={
  ("x/gov.processEnactmentProposal","panic"):"unreachable: enactment queue entries are written with the proposal; proposals are never deleted",
  ("x/gov/types.ProposalRouter.AllowedAddressesDynamicProposal","panic"):"unreachable: same content type already routed at submission (state-independent, input_only_panics_filtered)",
  ("x/gov/types.ProposalRouter.QuorumDynamicProposal","panic"):"unreachable: same content type already routed at submission (state-independent)",
- ("x/gov/keeper.Keeper.GetNetworkActorOrFail","panic"):"unreachable while every WRITER keeps the permission / role index entries and the actor record together: x/gov keeper (AddWhitelistPermission, RemoveWhitelistedPermission, AssignRoleToActor, UnassignRoleFromActor, SaveNetworkActor, DeleteNetworkActor) and, outside x/gov, the address-rotation blocks of x/recovery msgServer.RotateRecoveryAddress / RotateValidatorByHalfRRTokenHolder, which move actor, roles and individual permission index entries -- those callers are pinned in foreign_writer_pins (C06_foreign_writers_unchanged); exercised by the actor-perturbation histories",
+ ("x/gov/keeper.Keeper.GetNetworkActorOrFail","panic"):"REACHABLE on trees where a rotation may target an existing actor (finding GetNetworkActorOrFail:actor-missing, pending fix C06-rotation-onto-actor, flag rotation_refuses_actor_target, C06_rotation_onto_actor_on_this_tree); otherwise unreachable while every WRITER keeps the permission / role index entries and the actor record together: x/gov keeper (AddWhitelistPermission, RemoveWhitelistedPermission, AssignRoleToActor, UnassignRoleFromActor, SaveNetworkActor, DeleteNetworkActor) and, outside x/gov, the address-rotation blocks of x/recovery msgServer.RotateRecoveryAddress / RotateValidatorByHalfRRTokenHolder, which move actor, roles and individual permission index entries -- those callers are pinned in foreign_writer_pins (C06_foreign_writers_unchanged); exercised by the actor-perturbation histories",
  ("x/gov/keeper.Keeper.GetAverageVotesSlash","quo"):"guarded: returns zero when there is no Yes vote (totalCount == 0) before dividing by the Yes-vote count; exercised by the gov-vote-patterns histories (every vote pattern, run past the enactment end)",
  ("x/gov/types.CalculatedVotes.ProcessResult","div"):"float32 division: no panic (C08 covers the result)",
  ("x/gov/types.CalculatedPollVotes.ProcessResult","div"):"float32 division: no panic",
